@@ -10,6 +10,8 @@ from . import common as C
 
 ID = "C20"
 DRIVER = "drv_c20"
+GEN = ["py_utils"]
+EXTRA_PROP_FILES = ["Props/C20Gen.lean"]
 STREAMS = {
     "xor": {"relevant": True, "desc": "utils.xor(data, key)"},
     "nbenc": {"relevant": True, "desc": "utils.netbios_encode(data, offset)"},
@@ -19,9 +21,22 @@ STREAMS = {
     "uri": {"relevant": True, "desc": "checksum8 / is_stager_x86 / is_stager_x64"},
     "rsu": {"relevant": True, "desc": "random_stager_uri with scripted random.choice"},
     "gate": {"relevant": True, "desc": "BeaconCapture.find_staged_beacon gate with stubbed extraction"},
+    # the definitions translated from the source text by tools/py2lean.py (Gen/PyUtils.lean), run on the same cases: they follow
+    # the source by construction, so a difference here is a defect of the translator / of Model/PyRt.lean, not of the library
+    "g-xor": {"relevant": False, "desc": "translated utils.xor vs utils.xor"},
+    "g-nbenc": {"relevant": False, "desc": "translated utils.netbios_encode vs the function"},
+    "g-nbdec": {"relevant": False, "desc": "translated utils.netbios_decode vs the function"},
+    "g-pack": {"relevant": False, "desc": "translated utils.pack vs the function (incl. invalid byteorder / negative size)"},
+    "g-unpack": {"relevant": False, "desc": "translated utils.unpack vs the function"},
+    "g-uri": {"relevant": False, "desc": "translated checksum8 / is_stager_x86 / is_stager_x64 vs the functions"},
+    "g-part": {"relevant": False, "desc": "translated partial applications u8 … p64be vs the library objects"},
 }
 TRUSTED = [
     "tools/harness/c20.py generators and adapters; line protocol parsing in lean/CsVerif/Driver/C20.lean",
+    "tools/py2lean.py + tools/gen/py_utils.py (source text of xor, netbios_encode/decode, pack, unpack, checksum8, is_stager_x86/x64 and "
+    "the partial applications -> Gen/PyUtils.lean) and the Python semantics written down in lean/CsVerif/Model/PyRt.lean; "
+    "Props/C20Gen.lean proves every translated definition equal to the hand-written model, the g-* streams run the translated "
+    "definitions against the real functions",
     "CPython int.from_bytes/to_bytes, bytes(), re.match are modelled (Model/C20.lean), not verified; "
     "the xor model is byte-wise (keyAt), the big-int formulation is compared by this correspondence",
 ]
@@ -40,7 +55,40 @@ def fmt_uri(s: str) -> str:
     return "uri l" + ",".join(str(ord(c)) for c in s)
 
 
+G_STREAMS = {"xor", "nbenc", "nbdec", "pack", "unpack", "uri"}
+PARTS_U = ["u8", "u16", "u32", "u64", "u16be", "u32be", "u64be"]
+PARTS_P = ["p8", "p16", "p32", "p64", "p16be", "p32be", "p64be"]
+
+
 def gen(tier, rng, shard, nshards):
+    """every case of the translatable streams is also run through the translated definition (`g-` streams)"""
+    for stream, line in gen0(tier, rng, shard, nshards):
+        yield stream, line
+        if stream in G_STREAMS and len(line) < 20000:
+            yield "g-" + stream, "g" + line
+    thorough = tier == "thorough"
+    # what the hand-written model cannot express: invalid byteorder strings, negative sizes
+    for _ in range((3000 if thorough else 400) // nshards):
+        order = rng.choice(["little", "big", "Little", "BIG", "l", "middle", "le"])
+        size = rng.choice(["none", "0", "1", "2", "4", "-1", "-7", "8"])
+        sg = rng.choice("TF")
+        v = rng.choice([0, 1, -1, 255, 256, -128, -129, 65535, 65536, rng.randrange(-2 ** 40, 2 ** 40)])
+        yield "g-pack", f"gpack {v} {size} {order} {sg}"
+        d = C.rbytes(rng, rng.choice([0, 1, 2, 3, 4, 8, 9]))
+        yield "g-unpack", f"gunpack {C.hx(d)} {size} {order} {sg}"
+    for _ in range((3000 if thorough else 400) // nshards):
+        sg = rng.choice("TF")
+        nm = rng.choice(PARTS_U)
+        d = C.rbytes(rng, rng.choice([0, 1, 2, 3, 4, 5, 8, 9]))
+        yield "g-part", f"gpart {nm} {C.hx(d)} {sg}"
+        nm = rng.choice(PARTS_P)
+        w = {"8": 1, "16": 2, "32": 4, "64": 8}[nm.strip("pbe")]
+        lim = 256 ** w
+        v = rng.choice([0, 1, -1, lim - 1, lim, lim // 2 - 1, lim // 2, -(lim // 2), -(lim // 2) - 1, rng.randrange(-lim, lim)])
+        yield "g-part", f"gpart {nm} {v} {sg}"
+
+
+def gen0(tier, rng, shard, nshards):
     thorough = tier == "thorough"
     k = 0
 
@@ -254,8 +302,35 @@ class _StubConfig:
     watermark = 0
 
 
+def _ok(v):
+    if isinstance(v, bool):
+        return "ok " + C.tf(v)
+    if isinstance(v, (bytes, bytearray)):
+        return "ok " + C.hx(v)
+    return f"ok {v}"
+
+
 def impl(stream, line):
     w = line.split()
+    if stream.startswith("g-"):
+        size = (None if w[2] == "none" else int(w[2])) if stream in ("g-pack", "g-unpack") else None
+        if stream == "g-xor":
+            return _ok(utils.xor(C.unhx(w[1]), C.unhx(w[2])))
+        if stream == "g-nbenc":
+            return _ok(utils.netbios_encode(C.unhx(w[1]), int(w[2])))
+        if stream == "g-nbdec":
+            return _ok(utils.netbios_decode(C.unhx(w[1]), int(w[2])))
+        if stream == "g-pack":
+            return _ok(utils.pack(int(w[1]), size, byteorder=w[3], signed=w[4] == "T"))
+        if stream == "g-unpack":
+            return _ok(utils.unpack(C.unhx(w[1]), size, byteorder=w[3], signed=w[4] == "T"))
+        if stream == "g-uri":
+            t = "".join(chr(int(x)) for x in w[1][1:].split(",") if x)
+            return f"ok {utils.checksum8(t)} {C.tf(utils.is_stager_x86(t))} {C.tf(utils.is_stager_x64(t))}"
+        if stream == "g-part":
+            f = getattr(utils, w[1])
+            arg = C.unhx(w[2]) if w[1].startswith("u") else int(w[2])
+            return _ok(f(arg, signed=w[3] == "T"))
     if stream == "xor":
         return C.hx(utils.xor(C.unhx(w[1]), C.unhx(w[2])))
     if stream == "nbenc":
@@ -311,6 +386,8 @@ def nontrivial(stream, line, out):
     if out.startswith("exc "):
         return False
     w = line.split()
+    if stream.startswith("g-"):
+        return w[1] not in ("x", "l")
     if stream in ("xor", "nbenc", "nbdec", "unpack"):
         return w[1] != "x"
     if stream == "uri":
@@ -321,6 +398,8 @@ def nontrivial(stream, line, out):
 def oracle(stream, line, out):
     """Independent statement of the property on the implementation's own outputs."""
     w = line.split()
+    if stream.startswith("g-"):
+        return None
     if stream == "xor":
         d, k = C.unhx(w[1]), C.unhx(w[2])
         if out.startswith("exc"):
